@@ -915,3 +915,5 @@ def check(case: dict[str, Any], rec: Any) -> None:
 
 
 FINDINGS: dict[str, Any] = {}
+
+LEVEL_NOTE += " Rounds 13-14: tasks registered while stop()/wait() are waiting; the harness's own books of owed errors; the caller of stop() cancelled mid-stop."
